@@ -634,3 +634,34 @@ Proof.
   intros u v H. apply N2Nat.inj. rewrite <- (L (N.to_nat u)), <- (L (N.to_nat v)), H. reflexivity.
 Qed.
 Print Assumptions C09_an_injective_naming_exists.
+(* ---------------------------------------------------------------------------------------------------------------------------------- *)
+(* The cyclic node-mode LP WITH its repetition caps, composed end to end in the caller's terms (NodeCoverE2E.v): MinPathCoverCycles with
+   cover_type = 'node' returns the node walk width.  The caps of the cover model (|E*| * |V*| inside SCCs, 1 outside) always admit a
+   minimum cover of bounded repetition (WalkWidthCaps.width_cover_is_admissible), so no side condition on the caps remains; the only
+   premise about the expansion besides the solver specification is that every edge of the expanded s-t graph lies on a source-to-sink
+   walk (decidable: WalkWidth.st_ok). *)
+From FP Require Import WalkEncRows WalkSearch NodeCoverE2E.
+Theorem C09_node_minpathcovercycles_returns_the_node_walk_width :
+  forall (V : list node) (E : list PathEnc.edge) (S T : list node) (s t : node) (ign : list node) (out : nat -> outcome) (lb nE : nat),
+  ~ In s (DilworthNode.expV V) -> ~ In t (DilworthNode.expV V) -> s <> t -> (forall e, In e E -> In (fst e) V /\ In (snd e) V) -> NoDup V -> NoDup E ->
+  let A' := Aug.aug_edges (DilworthNode.expV V) (DilworthNode.expE V E) (map DilworthNode.x0 S) (map DilworthNode.x1 T) s t in
+  (forall u v, In (u, v) A' -> Dilworth.conn A' s u /\ Dilworth.conn A' v t) ->
+  (forall j, out j = Optimal <-> exists a, sat a (encode_kpcc (node_kpcc_inst V E S T s t ign j))) ->
+  (forall j, out j = Infeasible <-> ~ exists a, sat a (encode_kpcc (node_kpcc_inst V E S T s t ign j))) ->
+  exists (w : nat) (W : list (list node)) (A : list node),
+    length W = w /\ (forall p, In p W -> DilworthNode.nwalk V E S T p) /\ (forall v, In v V -> ~ In v ign -> exists p, In p W /\ In v p) /\
+    (forall W2, (forall p, In p W2 -> DilworthNode.nwalk V E S T p) -> (forall v, In v V -> ~ In v ign -> exists p, In p W2 /\ In v p) -> (w <= length W2)%nat) /\
+    length A = w /\ NoDup A /\ (forall v, In v A -> In v V /\ ~ In v ign) /\ DilworthNode.node_incompatible V E A /\
+    ((lb <= w <= nE)%nat -> mfdc_solve out (fun _ => false) None lb nE = Solved w).
+Proof. exact node_minpathcovercycles_returns_the_node_walk_width. Qed.
+Print Assumptions C09_node_minpathcovercycles_returns_the_node_walk_width.
+
+(* non-vacuity: 1 -> 2 -> {3, 4} with a self-loop at 2 (a cycle, two sinks): every premise about the caller's input holds *)
+Example C09_node_cyclic_premises_satisfiable :
+  ~ In 100%N (DilworthNode.expV cxV) /\ ~ In 101%N (DilworthNode.expV cxV) /\ 100%N <> 101%N /\ (forall e, In e cxE -> In (fst e) cxV /\ In (snd e) cxV) /\
+  NoDup cxV /\ NoDup cxE /\
+  (let A' := Aug.aug_edges (DilworthNode.expV cxV) (DilworthNode.expE cxV cxE) (map DilworthNode.x0 []) (map DilworthNode.x1 []) 100%N 101%N in
+   forall u v, In (u, v) A' -> Dilworth.conn A' 100%N u /\ Dilworth.conn A' v 101%N) /\
+  DilworthNode.nwalk cxV cxE [] [] [1; 2; 2; 3]%N /\ DilworthNode.nwalk cxV cxE [] [] [1; 2; 4]%N.
+Proof. exact cx_premises. Qed.
+Print Assumptions C09_node_cyclic_premises_satisfiable.
